@@ -439,7 +439,7 @@ def s_signed(draw):
     nin = len(m['vin'])
     idx = draw(st.integers(0, nin - 1)) if draw(st.integers(0, 19)) else nin
     ht = draw(st.sampled_from(HTS))
-    kind = draw(st.sampled_from(['p2pk', 'p2pkh', 'ms', 'ms', 'p2pk_cs', 'p2pk_sig_in_spk', 'msv']))
+    kind = draw(st.sampled_from(['p2pk', 'p2pkh', 'ms', 'ms', 'p2pk_cs', 'p2pk_sig_in_spk', 'msv', 'two_checks']))
     comp = draw(st.booleans())
     ks = draw(st.permutations(KEYS))[:3]
     pubs = [secp.ser_pub(pub(x), comp) for x in ks]
@@ -483,6 +483,20 @@ def s_signed(draw):
         sc = spk[len(pre) + 1:]
         sig = b'' if bad == 'empty' else mksig(ks[0], sc, bad, low)
         ssig = P(sig)
+    elif kind == 'two_checks':
+        # TWO signature checks in one script, same key and hash type, whose signed code differs only through signature removal:
+        # <sigB> <pk> CHECKSIGVERIFY <pk> CHECKSIG spent with <sigA>; sigB covers the script without its own push, sigA (not
+        # part of the script) covers all of it. (variants: separator between the checks, second key different)
+        sep = draw(st.sampled_from([b'', b'', b'\xab']))
+        k2 = draw(st.sampled_from([0, 0, 1]))
+        tail = P(pubs[0]) + b'\xad' + sep + P(pubs[k2]) + b'\xac'
+        sigb = b'' if bad == 'empty' else mksig(ks[0], tail, bad, low)
+        spk = P(sigb) + tail
+        code2 = spk if not sep else spk[spk.index(sep, len(P(sigb)) + len(P(pubs[0])) + 1) + 1:]
+        siga = mksig(ks[k2], code2, None, low)
+        ssig = P(siga)
+        if draw(st.integers(0, 3)) == 0:
+            ssig = P(sigb if sigb else siga)            # the embedded signature reused for the second check: signs other code
     elif kind == 'p2pk_sig_in_spk':
         tail = P(pubs[0]) + b'\xac'
         sig = b'' if bad == 'empty' else mksig(ks[0], tail, bad, low)
